@@ -1036,6 +1036,8 @@ fn tails_mode(a: &Args, t: &mut Trace) -> Value {
     let sample_every = a.num("--sample-every", 60).max(1);
     let mut case = a.num("--first-case", 0);
     let (mut replayed, mut fast, mut slow, mut drift, mut claimed_n, mut unclaimed_differ) = (0u64, 0u64, 0u64, 0u64, 0u64, 0u64);
+    let max_slow = a.num("--max-slow", 1500);
+    let mut slow_dropped = 0u64;
     let mut counters = (0u64, 0u64, 0u64); // chunk runs, latched suffix runs, tail-alone runs
     if let Some(f) = a.get("--scenarios") {
         let rdr = std::io::BufReader::new(std::fs::File::open(f).expect("scenarios"));
@@ -1081,6 +1083,11 @@ fn tails_mode(a: &Args, t: &mut Trace) -> Value {
                 fast += 1;
                 continue;
             }
+            if !agree && slow >= max_slow {
+                // a tree that deviates everywhere: TLC judges the first max_slow deviating scenarios, the rest is only counted
+                slow_dropped += 1;
+                continue;
+            }
             slow += 1;
             let k = [1usize, 2, 5][(replayed % 3) as usize];
             let mut b = Vec::new();
@@ -1122,7 +1129,7 @@ fn tails_mode(a: &Args, t: &mut Trace) -> Value {
             }
         }
     }
-    json!({"cases": case, "lines": t.lines, "replayed": replayed, "fast_path": fast, "slow_path": slow, "drift": drift, "claimed_tails": claimed_n,
+    json!({"cases": case, "lines": t.lines, "replayed": replayed, "fast_path": fast, "slow_path": slow, "slow_dropped": slow_dropped, "drift": drift, "claimed_tails": claimed_n,
         "unclaimed_tails_where_model_differs": unclaimed_differ, "chunk_runs": counters.0, "latched_suffix_runs": counters.1, "tail_alone_runs": counters.2, "grid": grid, "lm": lm})
 }
 
